@@ -38,6 +38,7 @@ def source_case(draw, big=False):
     else:
         prog = draw(gen.addition_tree(max_n=3, max_adds=2))
     prog, _ = gen.limit_loss(prog, 3)
+    prog = gen.cap_herald_photons(prog, cap=600)
     nv = prog["n"] - gen.count_heralds(prog)
     nph = draw(st.integers(1, 4 if big else 3))
     _, _, hp = gen.dims(prog)
